@@ -209,12 +209,16 @@ impl LruManager {
         // `<generation>.tmp` does not parse as a generation file name, so a
         // leftover temp file is never picked up by `find_latest_lru_file`.
         let temp_path = path.with_extension("tmp");
+        #[cfg(feature = "verif-hooks")] crate::verif_hooks::crash_point("lru.checkpoint.before_write", None);
 
         let written: std::io::Result<()> = async {
             let mut file = tokio::fs::File::create(&temp_path).await?;
+            #[cfg(feature = "verif-hooks")] crate::verif_hooks::crash_point("lru.checkpoint.after_create", Some(&temp_path));
             file.write_all(&data).await?;
             file.flush().await?;
+            #[cfg(feature = "verif-hooks")] crate::verif_hooks::crash_point("lru.checkpoint.after_write", Some(&temp_path));
             file.sync_all().await?;
+            #[cfg(feature = "verif-hooks")] crate::verif_hooks::crash_point("lru.checkpoint.after_sync", None);
             drop(file);
             tokio::fs::rename(&temp_path, &path).await
         }
@@ -226,6 +230,7 @@ impl LruManager {
                 path.display()
             )));
         }
+        #[cfg(feature = "verif-hooks")] crate::verif_hooks::crash_point("lru.checkpoint.after_rename", None);
 
         debug!(
             "LRU checkpoint: generation {} -> {}",
@@ -241,6 +246,7 @@ impl LruManager {
             {
                 warn!("failed to delete old LRU file {}: {e}", prev_path.display());
             }
+            #[cfg(feature = "verif-hooks")] crate::verif_hooks::crash_point("lru.checkpoint.after_delete_old", None);
         }
 
         Ok(())
@@ -474,6 +480,7 @@ impl LruManager {
         self.bump_generation();
         self.checkpoint_to_disk().await?;
         self.scan_directory();
+        #[cfg(feature = "verif-hooks")] crate::verif_hooks::crash_point("lru.shutdown.after_scan", None);
         debug!("LRU shutdown complete at generation {}", self.generation);
         Ok(())
     }
